@@ -1,6 +1,6 @@
 SPECIFICATION Spec
-CONSTANT MaxBlocks = 4
-CONSTANT Prelude <- PreludeNone
+CONSTANT MaxBlocks = 3
+CONSTANT Prelude <- PreludeDeps
 INVARIANT C05
 INVARIANT KnownVerdict
 INVARIANT InterOrder
